@@ -1140,6 +1140,11 @@ class C16(core.Property):
         dims = [v[1][0] if (v[0] in ('nd', 'obj') and v[1]) else None for _, v in s[1]] if s[0] == 'dict' else []
         if not dims or None in dims or len(set(dims)) != 1:
           ok = False
+        if bad_leaves(s):
+          # an unsupported leaf must be rejected rather than silently altered — by add_many OR by the later
+          # read: the property does not say at which call. Judged below: if it is listed, reading it must raise.
+          ok = False
+          unsupported[bytes.fromhex(i)] = bad_leaves(s)
         if bytes.fromhex(i) in seen:
           ok = False
           optional_ids.add(bytes.fromhex(i))
@@ -1147,6 +1152,7 @@ class C16(core.Property):
       return ok
 
     optional_ids = set()
+    unsupported = {}
     seen_ids = set()
     in_domain = [call_in_domain(c, seen_ids) for c in calls]
     for c, okc in zip(calls, in_domain):
@@ -1261,6 +1267,11 @@ class C16(core.Property):
               key = 'C16/byteorder/swapped-values'
       elif ex[0] == 'ok':
         problems.append(f'client {cid!r}: unsupported feature ({bad[0]}) came back without an error')
+    for cid, (_, ex) in zip(ids, per):
+      if cid in unsupported and ex[0] == 'ok':
+        problems.append(f'client {cid!r}: unsupported feature ({unsupported[cid][0]}) was accepted by add_many and '
+                        f'came back from get_client without an error')
+        key = key or 'C16/reject/accepted'
     if isinstance(via_clients, list):
       if [c for c, _ in via_clients] != ids:
         problems.append('clients() lists other clients than client_ids()')
